@@ -452,7 +452,206 @@ where
         },
         "min" => opt(aggregate::min(a)),
         "max" => opt(aggregate::max(a)),
+        "prod" => opt(aggregate::product(a)),
+        "prodc" => match aggregate::product_checked(a) {
+            Ok(o) => opt(o),
+            Err(e) => show_err(&e),
+        },
         _ => "bad-op".into(),
+    }
+}
+
+/// sum_array / sum_array_checked / min_array / max_array on a dictionary (`keys` given) or a
+/// run-end-encoded (`run_ends`, slice) view of `values`
+fn agg_encoded<T: ArrowNumericType>(f: &str, values: ArrayRef, enc: &str, keys: &Operand, ends: &[i32], off: usize, len: usize) -> String
+where
+    T::Native: Val,
+{
+    let run = |f: &str, sum: Option<T::Native>, sumc: Result<Option<T::Native>, ArrowError>, mn: Option<T::Native>, mx: Option<T::Native>| match f {
+        "sum" => opt(sum),
+        "sumc" => match sumc {
+            Ok(o) => opt(o),
+            Err(e) => show_err(&e),
+        },
+        "min" => opt(mn),
+        _ => opt(mx),
+    };
+    if enc == "dict" {
+        let k = build(&Ty::I32, keys);
+        let k = k.as_any().downcast_ref::<Int32Array>().unwrap().clone();
+        let d = match DictionaryArray::<Int32Type>::try_new(k, values) {
+            Ok(d) => d,
+            Err(_) => return "ERR:build".into(),
+        };
+        let t = d.downcast_dict::<PrimitiveArray<T>>().unwrap();
+        match f {
+            "sum" => run(f, aggregate::sum_array::<T, _>(t), Ok(None), None, None),
+            "sumc" => run(f, None, aggregate::sum_array_checked::<T, _>(t), None, None),
+            "min" => run(f, None, Ok(None), aggregate::min_array::<T, _>(t), None),
+            _ => run(f, None, Ok(None), None, aggregate::max_array::<T, _>(t)),
+        }
+    } else {
+        let re = Int32Array::from(ends.to_vec());
+        let r = match RunArray::<Int32Type>::try_new(&re, values.as_ref()) {
+            Ok(r) => r.slice(off, len),
+            Err(_) => return "ERR:build".into(),
+        };
+        let t = r.downcast::<PrimitiveArray<T>>().unwrap();
+        match f {
+            "sum" => run(f, aggregate::sum_array::<T, _>(t), Ok(None), None, None),
+            "sumc" => run(f, None, aggregate::sum_array_checked::<T, _>(t), None, None),
+            "min" => run(f, None, Ok(None), aggregate::min_array::<T, _>(t), None),
+            _ => run(f, None, Ok(None), None, aggregate::max_array::<T, _>(t)),
+        }
+    }
+}
+
+// ------------------------------------------------------------------ bitwise kernels
+
+fn bitw<T: ArrowNumericType>(f: &str, a: &ArrayRef, b: Option<&ArrayRef>, scalar: Option<&str>) -> String
+where
+    T::Native: Val
+        + std::ops::BitAnd<Output = T::Native>
+        + std::ops::BitOr<Output = T::Native>
+        + std::ops::BitXor<Output = T::Native>
+        + std::ops::Not<Output = T::Native>
+        + num_traits::WrappingShl<Output = T::Native>
+        + num_traits::WrappingShr<Output = T::Native>,
+{
+    use arrow_arith::bitwise::*;
+    let a = a.as_any().downcast_ref::<PrimitiveArray<T>>().unwrap();
+    let r: Result<PrimitiveArray<T>, ArrowError> = if let Some(b) = b {
+        let b = b.as_any().downcast_ref::<PrimitiveArray<T>>().unwrap();
+        match f {
+            "and" => bitwise_and(a, b),
+            "or" => bitwise_or(a, b),
+            "xor" => bitwise_xor(a, b),
+            "shl" => bitwise_shift_left(a, b),
+            "shr" => bitwise_shift_right(a, b),
+            "andnot" => bitwise_and_not(a, b),
+            _ => return "bad-op".into(),
+        }
+    } else if let Some(sv) = scalar {
+        let sv = <T::Native as Val>::parse(sv);
+        match f {
+            "and" => bitwise_and_scalar(a, sv),
+            "or" => bitwise_or_scalar(a, sv),
+            "xor" => bitwise_xor_scalar(a, sv),
+            "shl" => bitwise_shift_left_scalar(a, sv),
+            "shr" => bitwise_shift_right_scalar(a, sv),
+            _ => return "bad-op".into(),
+        }
+    } else {
+        bitwise_not(a)
+    };
+    show_res(r.map(|x| Arc::new(x) as ArrayRef))
+}
+
+// ------------------------------------------------------------------ ArrowNativeTypeOp directly
+
+fn nat_op<N: ArrowNativeTypeOp + Val>(m: &str, a: &str, b: &str) -> String {
+    let x = N::parse(a);
+    let res = |r: Result<N, ArrowError>| match r {
+        Ok(v) => v.show(),
+        Err(e) => show_err(&e),
+    };
+    match m {
+        "negc" => res(x.neg_checked()),
+        "negw" => x.neg_wrapping().show(),
+        "iszero" => (x.is_zero() as u8).to_string(),
+        "powc" => res(x.pow_checked(b.parse().unwrap())),
+        "poww" => x.pow_wrapping(b.parse().unwrap()).show(),
+        _ => {
+            let y = N::parse(b);
+            match m {
+                "addc" => res(x.add_checked(y)),
+                "subc" => res(x.sub_checked(y)),
+                "mulc" => res(x.mul_checked(y)),
+                "divc" => res(x.div_checked(y)),
+                "modc" => res(x.mod_checked(y)),
+                "addw" => x.add_wrapping(y).show(),
+                "subw" => x.sub_wrapping(y).show(),
+                "mulw" => x.mul_wrapping(y).show(),
+                "divw" => x.div_wrapping(y).show(),
+                "modw" => x.mod_wrapping(y).show(),
+                "cmp" => {
+                    // compare and the derived predicates must agree
+                    let c = x.compare(y);
+                    let ok = x.is_eq(y) == c.is_eq() && x.is_ne(y) == c.is_ne() && x.is_lt(y) == c.is_lt() && x.is_le(y) == c.is_le() && x.is_gt(y) == c.is_gt() && x.is_ge(y) == c.is_ge();
+                    let s = match c {
+                        std::cmp::Ordering::Less => "lt",
+                        std::cmp::Ordering::Equal => "eq",
+                        std::cmp::Ordering::Greater => "gt",
+                    };
+                    if ok { s.into() } else { format!("{}-inconsistent", s) }
+                }
+                _ => "bad-op".into(),
+            }
+        }
+    }
+}
+
+// ------------------------------------------------------------------ interval structs (arrow-buffer/src/interval.rs)
+
+macro_rules! ival_impl {
+    ($name:ident, $t:ty) => {
+        fn $name(m: &str, a: &str, b: &str) -> String {
+            let x = <$t as Val>::parse(a);
+            let o = |r: Option<$t>| r.map(|v| v.show()).unwrap_or("none".into());
+            match m {
+                "wneg" => x.wrapping_neg().show(),
+                "cneg" => o(x.checked_neg()),
+                "wabs" => x.wrapping_abs().show(),
+                "cabs" => o(x.checked_abs()),
+                "wpow" => x.wrapping_pow(b.parse().unwrap()).show(),
+                "cpow" => o(x.checked_pow(b.parse().unwrap())),
+                _ => {
+                    let y = <$t as Val>::parse(b);
+                    match m {
+                        "wadd" => x.wrapping_add(y).show(),
+                        "wsub" => x.wrapping_sub(y).show(),
+                        "wmul" => x.wrapping_mul(y).show(),
+                        "wdiv" => x.wrapping_div(y).show(),
+                        "wrem" => x.wrapping_rem(y).show(),
+                        "cadd" => o(x.checked_add(y)),
+                        "csub" => o(x.checked_sub(y)),
+                        "cmul" => o(x.checked_mul(y)),
+                        "cdiv" => o(x.checked_div(y)),
+                        "crem" => o(x.checked_rem(y)),
+                        _ => "bad-op".into(),
+                    }
+                }
+            }
+        }
+    };
+}
+ival_impl!(ival_dt, IntervalDayTime);
+ival_impl!(ival_mdn, IntervalMonthDayNano);
+
+// ------------------------------------------------------------------ byte-array min / max
+
+fn aggs(f: &str, kind: &str, items: &str) -> String {
+    let vals: Vec<Option<Vec<u8>>> = if items == "-" { vec![] } else { items.split(',').map(|x| if x == "n" { None } else { Some(unhex(&x[1..])) }).collect() };
+    let sh = |o: Option<&[u8]>| o.map(|b| format!("x{}", if b.is_empty() { String::new() } else { hex(b) })).unwrap_or("none".into());
+    let refs: Vec<Option<&[u8]>> = vals.iter().map(|v| v.as_deref()).collect();
+    let strs: Vec<Option<&str>> = if kind.contains("utf8") { vals.iter().map(|v| v.as_ref().map(|b| std::str::from_utf8(b).unwrap())).collect() } else { vec![] };
+    let mn = f == "min";
+    match kind {
+        "bin" => { let a = BinaryArray::from(refs); sh(if mn { aggregate::min_binary(&a) } else { aggregate::max_binary(&a) }) }
+        "lbin" => { let a = LargeBinaryArray::from(refs); sh(if mn { aggregate::min_binary(&a) } else { aggregate::max_binary(&a) }) }
+        "binv" => { let a = BinaryViewArray::from(refs); sh(if mn { aggregate::min_binary_view(&a) } else { aggregate::max_binary_view(&a) }) }
+        "utf8" => { let a = StringArray::from(strs); sh((if mn { aggregate::min_string(&a) } else { aggregate::max_string(&a) }).map(|s| s.as_bytes())) }
+        "lutf8" => { let a = LargeStringArray::from(strs); sh((if mn { aggregate::min_string(&a) } else { aggregate::max_string(&a) }).map(|s| s.as_bytes())) }
+        "utf8v" => { let a = StringViewArray::from(strs); sh((if mn { aggregate::min_string_view(&a) } else { aggregate::max_string_view(&a) }).map(|s| s.as_bytes())) }
+        _ => {
+            // fsb:<width>
+            let w: i32 = kind[4..].parse().unwrap();
+            let a = match FixedSizeBinaryArray::try_from_sparse_iter_with_size(refs.into_iter(), w) {
+                Ok(a) => a,
+                Err(_) => return "ERR:build".into(),
+            };
+            sh(if mn { aggregate::min_fixed_size_binary(&a) } else { aggregate::max_fixed_size_binary(&a) })
+        }
     }
 }
 
@@ -622,11 +821,19 @@ fn run_case(line: &str) -> String {
         }
         "bool" => {
             let op = t[2];
-            if op == "not" {
+            if op == "not" || op == "is_null" || op == "is_not_null" {
                 let a = t[3].to_string();
-                return guarded(move || match boolean::not(&parse_bool(&a)) {
-                    Ok(r) => show_bool(&r),
-                    Err(e) => show_err(&e),
+                return guarded(move || {
+                    let arr = parse_bool(&a);
+                    let r = match op {
+                        "not" => boolean::not(&arr),
+                        "is_null" => boolean::is_null(&arr),
+                        _ => boolean::is_not_null(&arr),
+                    };
+                    match r {
+                        Ok(r) => show_bool(&r),
+                        Err(e) => show_err(&e),
+                    }
                 });
             }
             let (l, r) = (t[3].to_string(), t[4].to_string());
@@ -644,6 +851,137 @@ fn run_case(line: &str) -> String {
                     Ok(r) => show_bool(&r),
                     Err(e) => show_err(&e),
                 }
+            })
+        }
+        "agg2" => {
+            // C12 agg2 <fn> <ty> <values> dict <keys>   |   C12 agg2 <fn> <ty> <values> ree <ends> <off> <len>
+            let (f, ty, vals, enc) = (t[2], parse_ty(t[3]), parse_operand(t[4]), t[5]);
+            let (keys, ends, off, len) = if enc == "dict" {
+                (parse_operand(t[6]), vec![], 0, 0)
+            } else {
+                (parse_operand("A0:-"), parse_list::<i32>(t[6]), t[7].parse::<usize>().unwrap(), t[8].parse::<usize>().unwrap())
+            };
+            guarded(move || {
+                let v = build(&ty, &vals);
+                match ty {
+                    Ty::I8 => agg_encoded::<Int8Type>(f, v, enc, &keys, &ends, off, len),
+                    Ty::I32 => agg_encoded::<Int32Type>(f, v, enc, &keys, &ends, off, len),
+                    Ty::I64 => agg_encoded::<Int64Type>(f, v, enc, &keys, &ends, off, len),
+                    Ty::U8 => agg_encoded::<UInt8Type>(f, v, enc, &keys, &ends, off, len),
+                    _ => "bad-op".into(),
+                }
+            })
+        }
+        "aggs" => {
+            let (f, kind, items) = (t[2], t[3], t[4].to_string());
+            guarded(move || aggs(f, kind, &items))
+        }
+        "bitw" | "bitws" => {
+            let scalar_form = t[1] == "bitws";
+            let (f, ty, a) = (t[2], parse_ty(t[3]), parse_operand(t[4]));
+            let b = if !scalar_form && t.len() > 5 { Some(parse_operand(t[5])) } else { None };
+            let sv = if scalar_form { Some(t[5].to_string()) } else { None };
+            guarded(move || {
+                let aa = build(&ty, &a);
+                let ba = b.as_ref().map(|b| build(&ty, b));
+                let sv = sv.as_deref();
+                match ty {
+                    Ty::I8 => bitw::<Int8Type>(f, &aa, ba.as_ref(), sv),
+                    Ty::I16 => bitw::<Int16Type>(f, &aa, ba.as_ref(), sv),
+                    Ty::I32 => bitw::<Int32Type>(f, &aa, ba.as_ref(), sv),
+                    Ty::I64 => bitw::<Int64Type>(f, &aa, ba.as_ref(), sv),
+                    Ty::U8 => bitw::<UInt8Type>(f, &aa, ba.as_ref(), sv),
+                    Ty::U16 => bitw::<UInt16Type>(f, &aa, ba.as_ref(), sv),
+                    Ty::U32 => bitw::<UInt32Type>(f, &aa, ba.as_ref(), sv),
+                    Ty::U64 => bitw::<UInt64Type>(f, &aa, ba.as_ref(), sv),
+                    _ => "bad-op".into(),
+                }
+            })
+        }
+        "nat" => {
+            let (m, ty, a, b) = (t[2], t[3], t[4].to_string(), t.get(5).unwrap_or(&"0").to_string());
+            guarded(move || match ty {
+                "i8" => nat_op::<i8>(m, &a, &b),
+                "i16" => nat_op::<i16>(m, &a, &b),
+                "i32" => nat_op::<i32>(m, &a, &b),
+                "i64" => nat_op::<i64>(m, &a, &b),
+                "i128" => nat_op::<i128>(m, &a, &b),
+                "i256" => nat_op::<i256>(m, &a, &b),
+                "u8" => nat_op::<u8>(m, &a, &b),
+                "u16" => nat_op::<u16>(m, &a, &b),
+                "u32" => nat_op::<u32>(m, &a, &b),
+                "u64" => nat_op::<u64>(m, &a, &b),
+                _ => "bad-op".into(),
+            })
+        }
+        "ival" => {
+            let (m, ty, a, b) = (t[2], t[3], t[4].to_string(), t.get(5).unwrap_or(&"0").to_string());
+            guarded(move || if ty == "idt" { ival_dt(m, &a, &b) } else { ival_mdn(m, &a, &b) })
+        }
+        "arity" => {
+            // *_mut kernels on Int32 with fixed operations; a declined (shared) buffer falls back to the
+            // non-mut kernel, as a caller would
+            let (f, a) = (t[2], parse_operand(t[3]));
+            let b = if t.len() > 4 { Some(parse_operand(t[4])) } else { None };
+            guarded(move || {
+                use arrow_arith::arity::*;
+                let mk = |o: &Operand| build(&Ty::I32, o).as_any().downcast_ref::<Int32Array>().unwrap().clone();
+                let x = mk(&a);
+                let r: Result<Int32Array, ArrowError> = match f {
+                    "unary_mut" => Ok(match unary_mut(x, |v| v.wrapping_mul(3)) {
+                        Ok(r) => r,
+                        Err(orig) => unary(&orig, |v| v.wrapping_mul(3)),
+                    }),
+                    "try_unary_mut" => match try_unary_mut(x, |v| v.mul_checked(3)) {
+                        Ok(r) => r,
+                        Err(orig) => try_unary(&orig, |v| v.mul_checked(3)),
+                    },
+                    "binary_mut" => {
+                        let y = mk(b.as_ref().unwrap());
+                        match binary_mut(x, &y, |l, r| l.wrapping_add(r)) {
+                            Ok(r) => r,
+                            Err(orig) => binary(&orig, &y, |l, r| l.wrapping_add(r)),
+                        }
+                    }
+                    "try_binary_mut" => {
+                        let y = mk(b.as_ref().unwrap());
+                        match try_binary_mut(x, &y, |l, r| l.add_checked(r)) {
+                            Ok(r) => r,
+                            Err(orig) => try_binary(&orig, &y, |l, r| l.add_checked(r)),
+                        }
+                    }
+                    _ => return "bad-op".into(),
+                };
+                show_res(r.map(|x| Arc::new(x) as ArrayRef))
+            })
+        }
+        "fixp" => {
+            // C12 fixp mfp|mfpc|mfpd <d128:p:s> <A> <d128:p:s> <B> <required_scale>
+            let (f, lt, l, rt, r, req) = (t[2], parse_ty(t[3]), parse_operand(t[4]), parse_ty(t[5]), parse_operand(t[6]), t[7].parse::<i8>().unwrap());
+            guarded(move || {
+                use arrow_arith::arithmetic::*;
+                let la = build(&lt, &l);
+                let ra = build(&rt, &r);
+                let (ld, rd) = (la.as_any().downcast_ref::<Decimal128Array>().unwrap(), ra.as_any().downcast_ref::<Decimal128Array>().unwrap());
+                match f {
+                    "mfp" => show_res(multiply_fixed_point(ld, rd, req).map(|x| Arc::new(x) as ArrayRef)),
+                    "mfpc" => show_res(multiply_fixed_point_checked(ld, rd, req).map(|x| Arc::new(x) as ArrayRef)),
+                    _ => show_res(multiply_fixed_point_dyn(la.as_ref(), ra.as_ref(), req)),
+                }
+            })
+        }
+        "decv" => {
+            // C12 decv <bits> <precision> <value>: validate_decimal*_precision and is_validate_* must agree
+            let (bits, p, v) = (t[2], t[3].parse::<u8>().unwrap(), t[4].to_string());
+            guarded(move || {
+                use arrow_data::decimal::*;
+                let (a, b) = match bits {
+                    "32" => (validate_decimal32_precision(v.parse().unwrap(), p, 0).is_ok(), is_validate_decimal32_precision(v.parse().unwrap(), p)),
+                    "64" => (validate_decimal64_precision(v.parse().unwrap(), p, 0).is_ok(), is_validate_decimal64_precision(v.parse().unwrap(), p)),
+                    "128" => (validate_decimal_precision(v.parse().unwrap(), p, 0).is_ok(), is_validate_decimal_precision(v.parse().unwrap(), p)),
+                    _ => (validate_decimal256_precision(big_i256(&v), p, 0).is_ok(), is_validate_decimal256_precision(big_i256(&v), p)),
+                };
+                if a != b { "inconsistent".into() } else if a { "ok".into() } else { "err".into() }
             })
         }
         "bagg" => {
@@ -789,6 +1127,56 @@ fn kf_decimal(line: &str) -> bool {
         }
     }
     pre_overflow || interm
+}
+
+const KF_DICT: &str = "kf:dict-null-values-aggregate";
+const KF_REE: &str = "kf:ree-sum-checked-run-product";
+const KF_REE_SLICE: &str = "kf:ree-sliced-sum-run-length";
+
+/// structural predicates (implementation independent) for the aggregate findings
+fn kf_agg2(line: &str) -> Option<&'static str> {
+    let t: Vec<&str> = line.split(' ').collect();
+    if t.len() < 7 || t[1] != "agg2" {
+        return None;
+    }
+    let vals = parse_operand(t[4]);
+    if t[5] == "dict" {
+        // a valid key that points to a null dictionary value
+        let keys = parse_operand(t[6]);
+        let hit = keys.slots.iter().any(|(k, valid)| *valid && k.parse::<usize>().ok().and_then(|i| vals.slots.get(i)).map(|v| !v.1).unwrap_or(false));
+        return if hit { Some(KF_DICT) } else { None };
+    }
+    if t[5] == "ree" && (t[2] == "sum" || t[2] == "sumc") && t[7] != "0" {
+        // sum over a run-end-encoded slice with a non-zero offset
+        return Some(KF_REE_SLICE);
+    }
+    if t[5] == "ree" && t[2] == "sumc" {
+        // sequential prefix sums all representable, but a run's length or value*length is not
+        let (lo, hi) = bounds(&parse_ty(t[3]));
+        let ends: Vec<i128> = parse_list::<i128>(t[6]);
+        let (off, len) = (t[7].parse::<i128>().unwrap(), t[8].parse::<i128>().unwrap());
+        let mut acc: i128 = 0;
+        let mut prev = off;
+        let mut bad = false;
+        for (e, v) in ends.iter().zip(vals.slots.iter()) {
+            let end = (*e).clamp(off, off + len);
+            let n = end - prev;
+            prev = end;
+            if n <= 0 || !v.1 {
+                continue;
+            }
+            let x: i128 = v.0.parse().unwrap();
+            acc += x * n;
+            if acc < lo || acc > hi {
+                return None; // the specification errors too
+            }
+            if n > hi || x * n < lo || x * n > hi {
+                bad = true;
+            }
+        }
+        return if bad { Some(KF_REE) } else { None };
+    }
+    None
 }
 
 // ------------------------------------------------------------------ generation
@@ -1098,7 +1486,20 @@ fn gen_arith_temporal(rng: &mut Rng) -> (String, String) {
             (t, t, &["add", "sub", "add_wrapping", "sub_wrapping", "mul"])
         }
         8 | 9 => (*rng.pick(&ivs), Ty::I64, &["mul", "mul", "mul", "mul_wrapping", "add"]),
-        10 => (Ty::I64, *rng.pick(&ivs), &["mul", "mul", "add"]),
+        10 if rng.bool() => (Ty::I64, *rng.pick(&ivs), &["mul", "mul", "add"]),
+        10 => {
+            // Interval(MonthDayNano) x Float64: integral factors take the exact mul_i64 route
+            let facts: [f64; 18] = [0.0, -0.0, 1.0, -1.0, 2.0, 3.0, -7.0, 1e6, 9007199254740992.0, 4611686018427387904.0, 9223372036854775808.0, -9223372036854775808.0, 0.5, 0.25, -0.5, 1.5, f64::INFINITY, f64::NAN];
+            let mode = rng.below(2) as u8;
+            let len = *rng.pick(&[0usize, 1, 2, 3, 9]);
+            let iv = gen_operand(rng, &Ty::Imdn, len, mode, 255, 2);
+            let fslots: Vec<String> = (0..len).map(|_| { let b = rng.pick(&facts).to_bits(); if rng.chance(1, 6) { format!("n:{}", b) } else { b.to_string() } }).collect();
+            let fa = if rng.chance(1, 3) { format!("S:{}", rng.pick(&facts).to_bits()) } else { format!("A0:{}", if fslots.is_empty() { "-".to_string() } else { fslots.join(",") }) };
+            let op = *rng.pick(&["mul", "mul", "div", "div", "add", "mul_wrapping"]);
+            let swap = op == "mul" && rng.chance(1, 3);
+            let line = if swap { format!("C12 arith {} f64 {} imdn {}", op, fa, iv) } else { format!("C12 arith {} imdn {} f64 {}", op, iv, fa) };
+            return (line, format!("op:arith:{} ty:temporal:imdn:f64 nt", op));
+        }
         _ => (*rng.pick(&[Ty::Date32, Ty::Date64, Ty::Dur(u), Ty::I32]), *rng.pick(&[Ty::Date64, Ty::Dur(u2), Ty::I64, Ty::Iym]), &["add", "sub", "mul"]),
     };
     let op = *rng.pick(ops);
@@ -1197,6 +1598,192 @@ fn gen_arith_dec_kf(rng: &mut Rng) -> (String, String) {
     (line, tags)
 }
 
+fn gen_bitw(rng: &mut Rng) -> (String, String) {
+    let ty = *rng.pick(&INT_TYS);
+    let mode = rng.below(3) as u8;
+    let len = gen_len(rng);
+    let a = gen_operand(rng, &ty, len, mode.max(1), 255, 2);
+    match rng.below(3) {
+        0 => (format!("C12 bitw not {} {}", show_ty(&ty), a), "op:bitw:not nt".into()),
+        1 => {
+            let f = *rng.pick(&["and", "or", "xor", "shl", "shr"]);
+            let sv = if f.starts_with("sh") { gen_shift(rng, &ty) } else { gen_int(rng, &ty, 2) };
+            (format!("C12 bitws {} {} {} {}", f, show_ty(&ty), a, sv), format!("op:bitws:{} nt", f))
+        }
+        _ => {
+            let f = *rng.pick(&["and", "or", "xor", "shl", "shr", "andnot"]);
+            let blen = if rng.chance(1, 30) { len + 1 } else { len };
+            let b = if f.starts_with("sh") {
+                let slots: Vec<String> = (0..blen).map(|_| if rng.chance(1, 6) { format!("n:{}", gen_shift(rng, &ty)) } else { gen_shift(rng, &ty) }).collect();
+                format!("A0:{}", if slots.is_empty() { "-".to_string() } else { slots.join(",") })
+            } else {
+                gen_operand(rng, &ty, blen, 2, 255, 2)
+            };
+            (format!("C12 bitw {} {} {} {}", f, show_ty(&ty), a, b), format!("op:bitw:{} nt", f))
+        }
+    }
+}
+
+/// shift amounts around 0, width-1, width, beyond, negative (signed types)
+fn gen_shift(rng: &mut Rng, ty: &Ty) -> String {
+    let (lo, hi) = bounds(ty);
+    let w: i128 = match ty {
+        Ty::I8 | Ty::U8 => 8,
+        Ty::I16 | Ty::U16 => 16,
+        Ty::I32 | Ty::U32 => 32,
+        _ => 64,
+    };
+    let v: i128 = match rng.below(8) {
+        0 => 0,
+        1 => 1,
+        2 => w - 1,
+        3 => w,
+        4 => w + 1,
+        5 => hi,
+        6 => lo,
+        _ => rng.range(-70, 200) as i128,
+    };
+    v.clamp(lo, hi).to_string()
+}
+
+const NAT_TYS: [&str; 10] = ["i8", "i16", "i32", "i64", "i128", "i256", "u8", "u16", "u32", "u64"];
+fn nat_ty(name: &str) -> Ty {
+    match name {
+        "i128" => Ty::Dec(128, 38, 0),
+        "i256" => Ty::Dec(256, 76, 0),
+        n => parse_ty(n),
+    }
+}
+
+fn gen_nat(rng: &mut Rng) -> (String, String) {
+    let tn = *rng.pick(&NAT_TYS);
+    let ty = nat_ty(tn);
+    let m = *rng.pick(&["addc", "subc", "mulc", "divc", "modc", "negc", "powc", "addw", "subw", "mulw", "divw", "modw", "negw", "poww", "cmp", "iszero"]);
+    let a = gen_int(rng, &ty, 2);
+    let b = if m.starts_with("pow") {
+        (if rng.chance(1, 2) { rng.below(8) } else { *rng.pick(&[0u64, 1, 2, 7, 8, 31, 32, 63, 64, 127, 128, 255, 256]) }).to_string()
+    } else {
+        gen_int(rng, &ty, 2)
+    };
+    let a = if m.starts_with("pow") && rng.chance(2, 3) { (rng.range(-11, 11) as i128).clamp(bounds(&ty).0, bounds(&ty).1).to_string() } else { a };
+    (format!("C12 nat {} {} {} {}", m, tn, a, b), format!("op:nat:{} ty:{} nt", m, tn))
+}
+
+fn gen_ival(rng: &mut Rng) -> (String, String) {
+    let (tn, ty) = if rng.bool() { ("idt", Ty::Idt) } else { ("imdn", Ty::Imdn) };
+    let m = *rng.pick(&["wadd", "wsub", "wmul", "wdiv", "wrem", "wneg", "wabs", "wpow", "cadd", "csub", "cmul", "cdiv", "crem", "cneg", "cabs", "cpow"]);
+    let mode = 1 + rng.below(2) as u8;
+    let a = gen_item(rng, &ty, mode);
+    let b = if m.ends_with("pow") { rng.below(6).to_string() } else { gen_item(rng, &ty, mode) };
+    (format!("C12 ival {} {} {} {}", m, tn, a, b), format!("op:ival:{} nt", m))
+}
+
+fn gen_agg2(rng: &mut Rng) -> (String, String) {
+    let ty = *rng.pick(&[Ty::I8, Ty::I32, Ty::I64, Ty::U8]);
+    let f = *rng.pick(&["sum", "sumc", "min", "max"]);
+    let mode = rng.below(3) as u8;
+    let nv = 1 + rng.usize(6);
+    let vnull = *rng.pick(&[0u8, 0, 1, 1, 2]);
+    let mut vals = gen_operand(rng, &ty, nv, mode, vnull, 2);
+    if rng.bool() {
+        // dictionary: keys with nulls, duplicates and unused entries
+        let nk = *rng.pick(&[0usize, 1, 2, 3, 5, 8, 9, 17, 65]);
+        let knull = *rng.pick(&[0u8, 0, 1, 2]);
+        let keys: Vec<String> = (0..nk)
+            .map(|_| {
+                let k = rng.usize(nv);
+                let null = knull == 2 || (knull == 1 && rng.chance(1, 3));
+                if null { format!("n:{}", k) } else { k.to_string() }
+            })
+            .collect();
+        let koff = if rng.chance(1, 3) { *rng.pick(&[1usize, 8, 9]) } else { 0 };
+        if koff > 0 && nk == 0 {
+            vals = vals.clone();
+        }
+        let line = format!("C12 agg2 {} {} {} dict A{}:{}", f, show_ty(&ty), vals, koff, if keys.is_empty() { "-".to_string() } else { keys.join(",") });
+        (line, format!("op:agg2:dict:{} nt", f))
+    } else {
+        // run-end encoded: strictly increasing run ends, sliced
+        let vals = { let v = gen_operand(rng, &ty, nv, mode, vnull, 2); v.replacen(&v[..v.find(':').unwrap()], "A0", 1) };
+        let mut ends = vec![];
+        let mut e = 0i32;
+        for _ in 0..nv {
+            e += *rng.pick(&[1i32, 1, 2, 3, 7, 64, 130, 200]);
+            ends.push(e);
+        }
+        let total = e as usize;
+        let off = if rng.bool() { 0 } else { rng.usize(total) };
+        let len = if rng.chance(1, 2) { total - off } else { rng.usize(total - off + 1) };
+        let line = format!("C12 agg2 {} {} {} ree {} {} {}", f, show_ty(&ty), vals, show_list(&ends), off, len);
+        (line, format!("op:agg2:ree:{} nt", f))
+    }
+}
+
+fn gen_aggs(rng: &mut Rng) -> (String, String) {
+    let kind = *rng.pick(&["bin", "lbin", "binv", "utf8", "lutf8", "utf8v", "fsb:2", "fsb:13"]);
+    let f = if rng.bool() { "min" } else { "max" };
+    let n = *rng.pick(&[0usize, 1, 2, 3, 5, 9, 17]);
+    let ascii = kind.contains("utf8");
+    let items: Vec<String> = (0..n)
+        .map(|_| {
+            if rng.chance(1, 4) {
+                return "n".to_string();
+            }
+            let l = if let Some(w) = kind.strip_prefix("fsb:") { w.parse().unwrap() } else { *rng.pick(&[0usize, 1, 2, 3, 11, 12, 13, 14, 20]) };
+            // shared prefixes so that the comparison reaches late bytes / the length tie-break
+            let b: Vec<u8> = (0..l).map(|i| if i < 11 && rng.chance(3, 4) { b'a' } else if ascii { b'a' + rng.below(3) as u8 } else { *rng.pick(&[0u8, 1, 0x61, 0x7f, 0x80, 0xff]) }).collect();
+            format!("x{}", if b.is_empty() { String::new() } else { hex(&b) })
+        })
+        .collect();
+    (format!("C12 aggs {} {} {}", f, kind, if items.is_empty() { "-".to_string() } else { items.join(",") }), format!("op:aggs:{}:{} nt", f, kind.split(':').next().unwrap()))
+}
+
+fn gen_arity(rng: &mut Rng) -> (String, String) {
+    let f = *rng.pick(&["unary_mut", "try_unary_mut", "binary_mut", "try_binary_mut"]);
+    let mode = rng.below(3) as u8;
+    let len = gen_len(rng);
+    let a = gen_operand(rng, &Ty::I32, len, mode, 255, 2);
+    if f.contains("binary") {
+        let blen = if rng.chance(1, 30) { len + 1 } else { len };
+        let b = gen_operand(rng, &Ty::I32, blen, mode, 255, 2);
+        (format!("C12 arity {} {} {}", f, a, b), format!("op:arity:{} nt", f))
+    } else {
+        (format!("C12 arity {} {}", f, a), format!("op:arity:{} nt", f))
+    }
+}
+
+fn gen_fixp(rng: &mut Rng) -> (String, String) {
+    let f = *rng.pick(&["mfp", "mfpc", "mfpd"]);
+    let lt = gen_dec(rng, 128);
+    let rt = gen_dec(rng, 128);
+    let (Ty::Dec(_, _, s1), Ty::Dec(_, _, s2)) = (lt, rt) else { unreachable!() };
+    let ps = s1 as i64 + s2 as i64;
+    let req = if rng.chance(1, 12) { ps + 1 } else if rng.chance(1, 3) { ps } else { (ps - rng.range(1, 12)).max(-3) };
+    let mode = rng.below(3) as u8;
+    let len = *rng.pick(&[0usize, 1, 2, 3, 8, 9]);
+    let l = gen_dec_operand(rng, &lt, len, mode, 255);
+    let r = gen_dec_operand(rng, &rt, len, mode, 255);
+    (format!("C12 fixp {} {} {} {} {} {}", f, show_ty(&lt), l, show_ty(&rt), r, req), format!("op:fixp:{} nt", f))
+}
+
+fn gen_decv(rng: &mut Rng) -> (String, String) {
+    let bits = *rng.pick(&[32u16, 64, 128, 256]);
+    let maxp: u32 = match bits { 32 => 9, 64 => 18, 128 => 38, _ => 76 };
+    let p = if rng.chance(1, 10) { maxp + 1 + rng.below(3) as u32 } else { 1 + rng.below(maxp as u64) as u32 };
+    // digit count = precision boundary: ±(10^p - 1), ±10^p
+    let pw = pow10(p.min(maxp));
+    let v: BigInt = match rng.below(6) {
+        0 => pw.clone() - 1,
+        1 => pw.clone(),
+        2 => -pw.clone() + 1,
+        3 => -pw.clone(),
+        4 => BigInt::from(0),
+        _ => big(&gen_int(rng, &Ty::Dec(bits, maxp as u8, 0), 2)),
+    };
+    let v = if fits(&v, bits) { v } else { BigInt::from(7) };
+    (format!("C12 decv {} {} {}", bits, p, v), format!("op:decv:{} nt", bits))
+}
+
 fn gen_neg(rng: &mut Rng) -> (String, String) {
     let ty = match rng.below(8) {
         0..=2 => *rng.pick(&INT_TYS),
@@ -1220,7 +1807,7 @@ fn gen_neg(rng: &mut Rng) -> (String, String) {
 
 fn gen_agg(rng: &mut Rng) -> (String, String) {
     let (ty, fns): (Ty, &[&str]) = match rng.below(10) {
-        0..=4 => (*rng.pick(&INT_TYS), &["sum", "sumc", "min", "max", "band", "bor", "bxor"]),
+        0..=4 => (*rng.pick(&INT_TYS), &["sum", "sumc", "min", "max", "band", "bor", "bxor", "prod", "prodc"]),
         5 => (Ty::Dec(128, 38, 0), &["sum", "sumc", "min", "max", "band", "bor", "bxor"]),
         6 => (Ty::Dec(256, 76, 0), &["sum", "sumc", "min", "max", "band", "bor", "bxor"]),
         7 => (*rng.pick(&[Ty::Dec(32, 9, 0), Ty::Dec(64, 18, 0), Ty::Date32, Ty::Date64]), &["sum", "sumc", "min", "max"]),
@@ -1260,7 +1847,8 @@ fn gen_bool(rng: &mut Rng) -> (String, String) {
         0 => {
             let hn = rng.bool();
             let a = gen_boolarr(rng, len, hn);
-            (format!("C12 bool not {}", a), format!("op:bool:not {}", if len > 0 { "nt" } else { "" }))
+            let f = *rng.pick(&["not", "not", "is_null", "is_not_null"]);
+            (format!("C12 bool {} {}", f, a), format!("op:bool:{} {}", f, if len > 0 { "nt" } else { "" }))
         }
         1 => {
             let f = *rng.pick(&["and", "or", "min", "max"]);
@@ -1378,6 +1966,15 @@ fn gen_case(rng: &mut Rng) -> (String, String) {
         10 => gen_neg(rng),
         11..=13 => gen_agg(rng),
         14..=15 => gen_bool(rng),
+        16 => match rng.below(9) {
+            0 | 1 => gen_bitw(rng),
+            2 | 3 => gen_nat(rng),
+            4 => gen_ival(rng),
+            5 => gen_agg2(rng),
+            6 => gen_aggs(rng),
+            7 => gen_arity(rng),
+            _ => if rng.bool() { gen_fixp(rng) } else { gen_decv(rng) },
+        },
         _ => gen_i256_case(rng),
     }
 }
@@ -1425,6 +2022,225 @@ fn exhaustive8(sink: &mut Sink) {
     }
 }
 
+/// DENSE deterministic block, generated in every run (a corpus in code): representation
+/// boundaries, layout classes (payload bits 0/1 under nulls on each side, offsets, buffer
+/// present/absent), lane / 64-slot boundaries, both operand entry points (array / Scalar).
+fn fixed_block(sink: &mut Sink) {
+    let emit = |sink: &mut Sink, line: String, tags: &str| {
+        let a = run_case(&line);
+        let mut tags = format!("{} fixed nt", tags);
+        if kf_decimal(&line) {
+            tags.push(' ');
+            tags.push_str(KF_DEC);
+        }
+        if let Some(k) = kf_agg2(&line) {
+            tags.push(' ');
+            tags.push_str(k);
+        }
+        sink.case(line, a, &tags);
+    };
+    // ---- boolean kernels: every arm (null buffer absent/present per side) x every logical pair x
+    //      payload bit 0 and 1 under each null, at offsets 0 / 3 / 65 and lengths 16 / 80 / 144
+    //      slot states: 0 = valid false, 1 = valid true, 2 = null payload 0, 3 = null payload 1
+    let states = |has_nulls: bool| -> Vec<u8> { if has_nulls { vec![0, 1, 2, 3] } else { vec![0, 1] } };
+    for op in ["and_kleene", "or_kleene", "and", "or", "and_not"] {
+        for (ln, rn) in [(false, false), (true, false), (false, true), (true, true)] {
+            let (ls, rs) = (states(ln), states(rn));
+            let mut lv = vec![];
+            let mut lm = vec![];
+            let mut rv = vec![];
+            let mut rm = vec![];
+            for a in &ls {
+                for b in &rs {
+                    lv.push(a & 1 == 1);
+                    lm.push(*a < 2);
+                    rv.push(b & 1 == 1);
+                    rm.push(*b < 2);
+                }
+            }
+            for reps in [1usize, 5, 9] {
+                for (lo, ro) in [(0usize, 0usize), (3, 0), (0, 65), (65, 3)] {
+                    let rep = |v: &Vec<bool>| -> Vec<bool> { v.iter().cycle().take(v.len() * reps).cloned().collect() };
+                    let l = format!("B{}:{}:{}", lo, show_bits(&rep(&lv)), if ln { show_bits(&rep(&lm)) } else { "-".into() });
+                    let r = format!("B{}:{}:{}", ro, show_bits(&rep(&rv)), if rn { show_bits(&rep(&rm)) } else { "-".into() });
+                    emit(sink, format!("C12 bool {} {} {}", op, l, r), &format!("op:bool:{} arm:{}{} payload:both", op, ln as u8, rn as u8));
+                }
+            }
+        }
+    }
+    for op in ["not", "is_null", "is_not_null"] {
+        for off in [0usize, 3, 65] {
+            for reps in [1usize, 20, 36] {
+                let v: Vec<bool> = [false, true, false, true].iter().cycle().take(4 * reps).cloned().collect();
+                let m: Vec<bool> = [true, true, false, false].iter().cycle().take(4 * reps).cloned().collect();
+                emit(sink, format!("C12 bool {} B{}:{}:{}", op, off, show_bits(&v), show_bits(&m)), &format!("op:bool:{} payload:both", op));
+                emit(sink, format!("C12 bool {} B{}:{}:-", op, off, show_bits(&v)), &format!("op:bool:{} arm:nonulls", op));
+            }
+        }
+        for f in ["and", "or", "min", "max"] {
+            // all-true / all-false / single exception at the first, 64th, 65th, last slot, garbage under nulls
+            for n in [1usize, 63, 64, 65, 128, 129] {
+                for exc in [None, Some(0usize), Some(n - 1), Some(n / 2)] {
+                    for base in [false, true] {
+                        let mut v = vec![base; n];
+                        if let Some(i) = exc {
+                            v[i] = !base;
+                        }
+                        if op == "not" {
+                            emit(sink, format!("C12 bagg {} B{}:{}:-", f, if n % 2 == 0 { 0 } else { 5 }, show_bits(&v)), "op:bagg boundary");
+                            // the exception hidden under a null: must not count
+                            if let Some(i) = exc {
+                                let mut m = vec![true; n];
+                                m[i] = false;
+                                emit(sink, format!("C12 bagg {} B{}:{}:{}", f, if n % 2 == 0 { 3 } else { 0 }, show_bits(&v), show_bits(&m)), "op:bagg boundary payload:both");
+                            }
+                        }
+                    }
+                }
+            }
+        }
+    }
+    // ---- integer kernels: every pair of boundary operands, both entry points, and under nulls
+    for ty in INT_TYS {
+        let (lo, hi) = bounds(&ty);
+        let mut bs: Vec<i128> = vec![lo, lo + 1, -1, 0, 1, 2, hi / 2, hi / 2 + 1, hi - 1, hi];
+        bs.retain(|v| *v >= lo && *v <= hi);
+        bs.dedup();
+        let tn = show_ty(&ty);
+        for op in OPS {
+            for (i, a) in bs.iter().enumerate() {
+                for (j, b) in bs.iter().enumerate() {
+                    let shape = (i + j) % 4;
+                    let line = match shape {
+                        0 => format!("C12 arith {} {} A0:{} {} A0:{}", op, tn, a, tn, b),
+                        1 => format!("C12 arith {} {} A0:{},{} {} S:{}", op, tn, a, a, tn, b),
+                        2 => format!("C12 arith {} {} S:{} {} A3:{}", op, tn, a, tn, b),
+                        _ => format!("C12 arith {} {} N0:{} {} N9:{}", op, tn, a, tn, b),
+                    };
+                    emit(sink, line, &format!("op:arith:{} ty:int boundary-pair shape:{}", op, shape));
+                }
+            }
+            // the same pairs as payload under a null slot next to a harmless valid slot
+            if op == "div" || op == "rem" || op == "add" || op == "mul" {
+                for a in &bs {
+                    for b in [lo, -1i128, 0, hi] {
+                        if b < lo {
+                            continue;
+                        }
+                        let one = 1i128.clamp(lo, hi);
+                        emit(sink, format!("C12 arith {} {} A0:n:{},{} {} S:{}", op, tn, a, one, tn, b), &format!("op:arith:{} ty:int payload-under-null scalar", op));
+                        emit(sink, format!("C12 arith {} {} A1:{},{} {} A0:n:{},{}", op, tn, a, one, tn, b, one), &format!("op:arith:{} ty:int payload-under-null", op));
+                    }
+                }
+            }
+        }
+        for op in ["neg", "neg_wrapping"] {
+            for a in &bs {
+                emit(sink, format!("C12 {} {} A0:{},n:{}", op, tn, a, lo), &format!("op:{} boundary", op));
+            }
+        }
+        // ArrowNativeTypeOp methods on the boundary pairs
+        for m in ["divc", "modc", "divw", "modw", "mulc", "mulw", "cmp"] {
+            for a in &bs {
+                for b in [lo, -1i128, 0, 1, hi] {
+                    if b >= lo {
+                        emit(sink, format!("C12 nat {} {} {} {}", m, tn, a, b), &format!("op:nat:{} boundary", m));
+                    }
+                }
+            }
+        }
+    }
+    // ---- aggregates: lane / 64-slot boundaries x null layouts (garbage = extreme value under every null)
+    for ty in [Ty::I8, Ty::I16, Ty::I32, Ty::I64, Ty::U8, Ty::U64, Ty::Dec(128, 38, 0)] {
+        let (lo, hi) = bounds(&ty);
+        let tn = show_ty(&ty);
+        for n in [1usize, 2, 7, 8, 9, 15, 16, 17, 31, 32, 33, 63, 64, 65, 127, 128, 129, 191, 193] {
+            for layout in 0..6 {
+                // 0 no nulls, 1 first null, 2 last null, 3 every other, 4 all but the last, 5 buffer present/no nulls
+                let slots: Vec<String> = (0..n)
+                    .map(|i| {
+                        let v: i128 = match i % 5 {
+                            0 => 3,
+                            1 => (-2i128).max(lo),
+                            2 => 1,
+                            3 => if i % 2 == 0 { hi / 64 } else { lo / 64 },
+                            _ => 0,
+                        };
+                        let null = match layout {
+                            1 => i == 0,
+                            2 => i == n - 1,
+                            3 => i % 2 == 1,
+                            4 => i != n - 1,
+                            _ => false,
+                        };
+                        if null { format!("n:{}", if i % 2 == 0 { hi } else { lo }) } else { v.to_string() }
+                    })
+                    .collect();
+                let head = if layout == 5 { "N0" } else if n % 3 == 0 { "A9" } else { "A0" };
+                for f in ["sum", "sumc", "min", "max", "prod", "band", "bor", "bxor"] {
+                    if n > 65 && (f == "prod" || f.starts_with('b')) {
+                        continue;
+                    }
+                    emit(sink, format!("C12 agg {} {} {}:{}", f, tn, head, slots.join(",")), &format!("op:agg:{} lane-boundary layout:{}", f, layout));
+                }
+            }
+        }
+    }
+    // ---- dictionary / run-end-encoded entry points of the aggregates
+    for f in ["sum", "sumc", "min", "max"] {
+        emit(sink, format!("C12 agg2 {} i32 A0:5,n:-100,7 dict A0:0,1,2", f), "op:agg2:dict dict-null-value");
+        emit(sink, format!("C12 agg2 {} i32 A0:n:9,n:9 dict A0:0,1", f), "op:agg2:dict dict-all-values-null");
+        emit(sink, format!("C12 agg2 {} i32 A0:5,6,7 dict A0:2,2,n:0,0", f), "op:agg2:dict dict-dup-unused");
+        emit(sink, format!("C12 agg2 {} i32 A0:5,6,7 dict A0:n:0,n:1", f), "op:agg2:dict dict-all-keys-null");
+        emit(sink, format!("C12 agg2 {} i32 A0:10,20 ree 5,10 6 2", f), "op:agg2:ree ree-sliced");
+        emit(sink, format!("C12 agg2 {} i32 A0:10,20 ree 5,10 0 10", f), "op:agg2:ree ree-full");
+        emit(sink, format!("C12 agg2 {} i32 A0:10,n:7,20 ree 5,10,12 0 11", f), "op:agg2:ree ree-null-run");
+        emit(sink, format!("C12 agg2 {} i8 A0:-100,50 ree 1,4 0 4", f), "op:agg2:ree ree-run-product");
+        emit(sink, format!("C12 agg2 {} i8 A0:0,1 ree 200,201 0 201", f), "op:agg2:ree ree-long-run");
+    }
+    // ---- decimals: digit count = precision, both signs, equal / different scales
+    for (bits, p) in [(32u16, 9u32), (64, 18), (128, 38), (256, 76)] {
+        let top: BigInt = pow10(p) - BigInt::from(1);
+        for (a, b) in [(top.clone(), BigInt::from(1)), (top.clone(), top.clone()), (-top.clone(), -top.clone()), (top.clone(), -top.clone()), (BigInt::from(0), top.clone())] {
+            for op in ["add", "sub", "mul", "div", "rem"] {
+                emit(sink, format!("C12 arith {} d{}:{}:0 A0:{} d{}:{}:0 A0:{}", op, bits, p, a, bits, p, b), &format!("op:arith:{} ty:dec{} precision-boundary", op, bits));
+                emit(sink, format!("C12 arith {} d{}:{}:2 A0:{} d{}:{}:0 S:{}", op, bits, p, a, bits, p, b), &format!("op:arith:{} ty:dec{} precision-boundary scalar", op, bits));
+            }
+            emit(sink, format!("C12 decv {} {} {}", bits, p, a), "op:decv precision-boundary");
+            emit(sink, format!("C12 decv {} {} {}", bits, p, &a + BigInt::from(if a >= BigInt::from(0) { 1 } else { -1 })), "op:decv precision-boundary");
+        }
+    }
+    // ---- i256: every pair of limb-boundary values
+    let vs: Vec<i256> = vec![
+        i256::MIN, i256::from_parts(1, i128::MIN), i256::from_parts(u128::MAX, -2), i256::from_parts(0, -1), i256::from_parts(u128::MAX << 127, -1),
+        i256::from_parts(u128::MAX << 64, -1), i256::MINUS_ONE, i256::ZERO, i256::ONE, i256::from_parts(1 << 64, 0), i256::from_parts(1 << 127, 0),
+        i256::from_parts(u128::MAX, 0), i256::from_parts(0, 1), i256::from_parts(u128::MAX, i128::MAX >> 1), i256::from_parts(u128::MAX - 1, i128::MAX), i256::MAX,
+    ];
+    let p = |x: &i256| {
+        let (l, h) = x.to_parts();
+        format!("{} {}", l, h)
+    };
+    for m in ["wadd", "wsub", "wmul", "cadd", "csub", "cmul", "cdiv", "crem", "wdiv", "wrem", "cmp"] {
+        for a in &vs {
+            for b in &vs {
+                emit(sink, format!("C12 i256 {} {} {}", m, p(a), p(b)), &format!("op:i256:{} boundary-pair", m));
+            }
+        }
+    }
+    for m in ["wneg", "cneg", "wabs", "cabs", "toi128", "tostr"] {
+        for a in &vs {
+            emit(sink, format!("C12 i256 {} {}", m, p(a)), &format!("op:i256:{} boundary", m));
+        }
+    }
+    for a in &vs {
+        for e in [0u32, 1, 2, 3, 255, 256] {
+            emit(sink, format!("C12 i256 cpow {} {}", p(a), e), "op:i256:cpow boundary");
+            emit(sink, format!("C12 i256 wpow {} {}", p(a), e), "op:i256:wpow boundary");
+        }
+        emit(sink, format!("C12 i256str ={}", show_i256v(*a)), "op:i256:fromstr boundary");
+    }
+}
+
 fn nontrivial(line: &str, tags: &str) -> bool {
     if tags.split(' ').any(|t| t == "nt") {
         return true;
@@ -1445,10 +2261,13 @@ fn main() {
     if args.mode == "replay" {
         for line in read_cases(args.replay.as_ref().unwrap()) {
             let a = run_case(&line);
-            let tags = if kf_decimal(&line) { format!("replay {}", KF_DEC) } else { "replay".to_string() };
+            let tags = if kf_decimal(&line) { format!("replay {}", KF_DEC) } else if let Some(k) = kf_agg2(&line) { format!("replay {}", k) } else { "replay".to_string() };
             sink.case(line, a, &tags);
         }
     } else {
+        if args.cases.is_none() {
+            fixed_block(&mut sink);
+        }
         let mut rng = Rng::new(args.seed ^ 0xC12);
         let n = n_cases(&args, 14000, 400000);
         for _ in 0..n {
@@ -1457,6 +2276,10 @@ fn main() {
             if kf_decimal(&line) {
                 tags.push(' ');
                 tags.push_str(KF_DEC);
+            }
+            if let Some(k) = kf_agg2(&line) {
+                tags.push(' ');
+                tags.push_str(k);
             }
             if nontrivial(&line, &tags) && !tags.split(' ').any(|t| t == "nt") {
                 tags.push_str(" nt");
